@@ -836,3 +836,31 @@ def s4(facts, tier):
             yield ob(["C17"], "S4", key, "pass" if ok else ("violation" if rc.endswith(("Option::take", "::last_mut", "::last", "::pop")) else "undecided"),
                      where(f, x), f"{fid}: `{rc.rsplit('::', 1)[-1] or 'value'}().unwrap()` {why}" if ok else
                      f"{fid}: `{rc.rsplit('::', 1)[-1] or 'value'}().unwrap()` can panic: {why}")
+
+
+# ---------------------------------------------------------------------------------------------
+# S5: the trait's default introspect_len is the linear probe
+
+@rule("S5", ["C17"], floor=1, doc="the default Introspect::introspect_len (used by every impl that does not override it) is the linear probe: it asks for "
+      "child 0, 1, 2 ... in a `for` over 0..MAX_CHILDREN, returns the first index for which introspect_child is None, and the cap only "
+      "after the loop. Any other search (doubling, bisection) is not judged: whether it returns the same count is a value-level question")
+def s5(facts, tier):
+    f = facts.fns.get("savefile::Introspect::introspect_len")
+    if f is None or not f.get("body"):
+        yield ob(["C17"], "S5", "default-introspect_len", "violation", "", "savefile::Introspect::introspect_len (provided method) not found")
+        return
+    fors = [x for x in walk(f["body"]) if x.get("k") == "For"]
+    ok = False
+    why = "not a single `for` loop"
+    if len(fors) == 1 and not any(x.get("k") in ("Loop", "While") for x in walk(f["body"])):
+        lp = fors[0]
+        v = lp["pat"].get("v") if lp["pat"].get("k") == "Bind" else None
+        rets = [x for x in walk(lp["body"]) if x.get("k") == "Return"]
+        probes = [x for x in walk(lp["body"]) if x.get("k") == "Call" and (callee(x) or "").endswith("Introspect::introspect_child")]
+        idx_ok = probes and all(peel(p["args"][1]).get("k") == "Var" and peel(p["args"][1]).get("v") == v for p in probes)
+        ret_ok = rets and all(r.get("e") is not None and peel(r["e"]).get("k") == "Var" and peel(r["e"])["v"] == v for r in rets)
+        it = peel(lp.get("iter") or {})
+        start0 = it.get("k") == "Adt" and any(fl.get("f") == "start" and peel(fl["e"]).get("int") == 0 for fl in it.get("fields", []))
+        ok = bool(v and idx_ok and ret_ok and start0)
+        why = "the loop variable is the probed index and the returned count, starting at 0" if ok else "loop shape differs (index / return / start)"
+    yield ob(["C17"], "S5", "default-introspect_len", "pass" if ok else "undecided", where(f), why)
